@@ -312,8 +312,19 @@ class State:
 
                 # Merge vectorized scan states into collected state
                 # scan_states is already vectorized by scan - just merge it
+                # Values saved in the scan body are stacked along the iteration
+                # axis and belong under the namespaces enclosing the scan.
+                namespace_path = tuple(self.namespace_stack)
                 for name, vectorized_values in scan_states.items():
-                    self.collected_state[name] = vectorized_values
+                    if namespace_path:
+                        _nested_dict_set(
+                            self.collected_state,
+                            namespace_path,
+                            name,
+                            vectorized_values,
+                        )
+                    else:
+                        self.collected_state[name] = vectorized_values
 
                 outvals = jtu.tree_leaves(
                     (flat_carry_out, scanned_out),
